@@ -764,7 +764,7 @@ def run(tier, seed):
         # ---- U2: the TLC shapes
         sums, prods, splits, sum3s = ([], []), ([], []), [[]], ([], [], [])
         dense = ([], [])
-        ndense = ((160 if name == "float16" else 30) if quick else (4000 if name == "float16" else 800))
+        ndense = ((160 if name == "float16" else 30) if quick else (1000 if name == "float16" else 200))
         for sh in shapes:
             if sh[1] != name:
                 continue
@@ -831,7 +831,7 @@ def run(tier, seed):
                 submit("split", f, [[b | f.sign for b in rng.sample(range(f.inf), 3000)]], "sampled-negative")
             else:
                 submit("split", f, [all_finite(f)], "exhaustive")
-            n16 = 5000 if quick else 300000
+            n16 = 5000 if quick else 100000
             for kind in ("sum", "prod"):
                 for lo in range(0, n16, 100000):
                     cnt = min(100000, n16 - lo)
@@ -839,13 +839,13 @@ def run(tier, seed):
             sq = uniform_f16(1000 if quick else 20000, rng)
             submit("prod", f, [sq, sq], "uniform-equal")
         # ---- random pairs with nearby exponents (sums) / representable products
-        nr = (4000 if quick else 250000) if name != "float16" else (2000 if quick else 100000)
+        nr = (4000 if quick else 80000) if name != "float16" else (2000 if quick else 40000)
         for lo in range(0, nr, 100000):
             cnt = min(100000, nr - lo)
             submit("sum", f, list(random_sum_pairs(f, cnt, rng)), "random")
             submit("prod", f, list(random_prod_pairs(f, cnt * 3 // 5, rng)), "random")
         if name != "float16":
-            xs = [rand_float(f, rng.randint(f.qmin, f.emax), rng) for _ in range(2000 if quick else 100000)]
+            xs = [rand_float(f, rng.randint(f.qmin, f.emax), rng) for _ in range(2000 if quick else 40000)]
             submit("split", f, [xs], "random")
             sq = xs[:1000 if quick else 30000]
             submit("prod", f, [sq, sq], "random-equal")
